@@ -16,6 +16,9 @@ result = [per op: {outcome, trace, nsver, diff, nsend}]
    trace   = the commands the machine executed during the op, in order (a retransmission whose request
              arrived is executed again), sver excluded: [x, y, p, cmd, a1, a2, a3, data hex, rc, reply hex]
    diff    = every byte of the machine that differs from its initial value after the op
+   max_tx  = the largest number of times one and the same datagram was transmitted during the op
+ case["discover"]: mc.discover_connections() runs first (case["eth"] = [[x, y, k], ...] Ethernet chips with IP
+   10.11.12.k; the boot chip's memory holds p2p_dims and the P2P table); the fault plan starts after it.
 """
 import warnings
 
@@ -31,14 +34,89 @@ STRUCTS = struct_file.read_struct_file(pkg_resources.resource_string("rig", "boo
 
 class MachineFaultSim(scpsim.FaultSim):
     """FaultSim whose machine also executes a request all of whose replies are lost (scpsim's own on_send
-    only runs the responder once per reply, which is enough for C06's echo machine but not for a memory)."""
+    only runs the responder once per reply, which is enough for C06's echo machine but not for a memory), whose
+    replies go back to the socket the request came from, and whose plan can be re-based (`base`: the fault plan
+    numbers the transmissions made after the set-up traffic)."""
+    base = 0
 
     def on_send(self, net, tx, data):
-        o = self.plan.get(str(tx), self.default)
-        if not o.get("lost") and not o["replies"]:
+        o = self.plan.get(str(tx - self.base), self.default) if tx >= self.base else self.default
+        if o.get("lost"):
+            return
+        sid = getattr(net, "cur", None)
+        if not o["replies"]:
             self.responder(net, tx, data, scpsim.RC_OK)
             return
-        scpsim.FaultSim.on_send(self, net, tx, data)
+        for delay, rc in o["replies"]:
+            reply = self.responder(net, tx, data, scpsim.RC_OK if rc is None else rc)
+            if reply is not None:
+                self.pending.append([net.now + delay, self.order, (sid, reply)])
+                self.order += 1
+
+
+class PortSocket(scpsim.FakeSocket):
+    """one UDP socket with its own receive queue (a controller that has discovered several boards holds one
+    socket per board; a datagram is only ever seen by the socket it was sent to)"""
+
+    def __init__(self, net, sid):
+        scpsim.FakeSocket.__init__(self, net)
+        self.sid = sid
+
+    def send(self, data):
+        self.net.cur = self.sid
+        return self.net._send(bytes(data))
+
+    def recv(self, n):
+        return self.net._recv_on(self.sid, n)
+
+
+class _SocketModule(object):
+    AF_INET = 2
+    SOCK_DGRAM = 2
+    error = OSError
+    timeout = OSError
+
+    def __init__(self, net):
+        self.net = net
+
+    def socket(self, *a, **k):
+        s = PortSocket(self.net, len(self.net.sockets))
+        self.net.sockets.append(s)
+        self.net.bufs[s.sid] = []
+        return s
+
+
+class BoardNet(scpsim.Net):
+    """scpsim.Net with one receive queue per socket (same scripted clock / select / fault policy)"""
+
+    def __init__(self, policy, now=0):
+        scpsim.Net.__init__(self, policy, now)
+        self.bufs = {}
+        self.cur = None
+
+    def install(self, module):
+        restore = scpsim.Net.install(self, module)
+        module.socket = _SocketModule(self)
+        return restore
+
+    def _select(self, r, w, x, timeout):
+        self.log.append(["select", timeout])
+        k = self.nselect
+        self.nselect += 1
+        items, after = self.policy.on_select(self, k, timeout)
+        self.events.append([[d for _, d in items], after])
+        for sid, d in items:
+            self.bufs[sid].append(d)
+        self.now = after
+        return [s for s in r if self.bufs[s.sid]], [], []
+
+    def _recv_on(self, sid, n):
+        self.recv_sizes.add(n)
+        if not self.bufs[sid]:
+            raise BlockingIOError(11, "Resource temporarily unavailable")
+        d = self.bufs[sid].pop(0)
+        self.log.append(["recv", d])
+        return d[:n]
 
 
 def get_data(d):
@@ -89,9 +167,9 @@ def run_op(mc, op, x, y, buffer, window):
 
 
 def run_case(c):
-    machine = sim.SimMachine(c["seed"], c.get("over", []), c["buffer"], c.get("dims", [8, 8]))
+    machine = sim.SimMachine(c["seed"], c.get("over", []), c["buffer"], c.get("dims", [8, 8]), eth=c.get("eth", ()))
     plan = c.get("plan") or {}
-    net = scpsim.Net(MachineFaultSim(plan, responder=machine.responder, exact=c.get("exact", ()),
+    net = BoardNet(MachineFaultSim(plan, responder=machine.responder, exact=c.get("exact", ()),
                                      max_selects=c.get("max_selects", 200000)))
     restore = net.install(scp_connection)
     try:
@@ -102,10 +180,25 @@ def run_case(c):
         if c["window"] != 1:
             mc._window_size = c["window"]        # the controller has no public way to set it ("TODO" in the source)
         results = []
+        if c.get("discover"):
+            # multi-board machine: the controller finds the other boards' Ethernet chips and opens one connection
+            # per board; the fault plan only starts after this set-up traffic
+            net.policy.base = 10 ** 12
+            try:
+                found = mc.discover_connections()
+            except Exception as e:                               # noqa
+                return [dict(outcome=["exc", type(e).__name__, "discover_connections: " + str(e)[:120]], trace=[],
+                             max_tx=0, discovered=None, nsock=len(net.sockets), nsver=0, diff=machine.mem.diff(),
+                             nsend=net.ntx, ports=[])]
+            net.policy.base = net.ntx
+            results_pre = dict(found=found, conns=sorted(list(k) for k in mc.connections if k is not None))
+        else:
+            results_pre = None
         for i, op in enumerate(c["ops"]):
             x, y = c["chips"][i] if c.get("chips") else c["chip"]     # one controller, possibly several chips
             lo = len(machine.log)
             ntx = net.ntx
+            llo = len(net.log)
             try:
                 v = run_op(mc, op, x, y, c["buffer"], c["window"])
                 outcome = ["ok", jsonable(v)]
@@ -115,8 +208,13 @@ def run_case(c):
                 outcome = ["exc", type(e).__name__, str(e)[:160]]
             entries = machine.log[lo:]
             trace = [[e["x"], e["y"], e["p"], e["cmd"]] + e["args"] + [e["data"], e["rc"], e["reply"]]
-                     for e in entries if e["cmd"] != sim.CMD_VER]
-            results.append(dict(outcome=outcome, trace=trace,
+                     for e in entries if e["cmd"] not in sim.CONTROL]
+            sends = {}
+            for e in net.log[llo:]:
+                if e[0] == "send":
+                    sends[e[2]] = sends.get(e[2], 0) + 1
+            results.append(dict(outcome=outcome, trace=trace, max_tx=max(sends.values()) if sends else 0,
+                                discovered=results_pre, nsock=len(net.sockets),
                                 nsver=sum(1 for e in entries if e["cmd"] == sim.CMD_VER),
                                 diff=machine.mem.diff(), nsend=net.ntx - ntx,
                                 ports=sorted(set(e["port"] for e in entries))))
